@@ -2,10 +2,9 @@
 //! random schedules. Writes the client-level event log (taps, API operations, outcomes) and the
 //! broker hook trace, both as ndjson with `reset` records between runs.
 
-use bus_driver::roles::{self, Ctx, Offer, Slot};
-use bus_driver::{Bus, Latch, Mailbox};
+use bus_driver::Bus;
 use serde_json::json;
-use std::cell::{Cell, RefCell};
+use std::cell::Cell;
 use std::path::PathBuf;
 use std::rc::Rc;
 use vcore::exec::{install_panic_hook, RunOutcome};
@@ -63,79 +62,7 @@ fn one_run(program_seed: u64, schedule_seed: u64, mix: &str) -> (Vec<serde_json:
     }
     let n = bus.clients.len();
     let tokens = Rc::new(Cell::new(0u32));
-    let mk_ctx = |bus: &Bus, cl: usize, name: String, rng: &mut Rng| Ctx {
-        name,
-        cl,
-        handle: bus.clients[cl].handle.clone().unwrap(),
-        log: bus.log.clone(),
-        rng: Rc::new(RefCell::new(rng.fork())),
-        tokens: tokens.clone(),
-    };
-    let want = |what: &str| mix == "all" || mix.split(',').any(|m| m == what);
-    let mut roles_n = 0;
-
-    if n >= 2 {
-        // servers with callers and subscribers
-        if want("calls") || want("events") {
-            let nservers = 1 + prng.below(2);
-            for s in 0..nservers {
-                let scl = prng.below(n as u64) as usize;
-                let slot = Slot::new();
-                let ncallers = if want("calls") { 1 + prng.below(2) } else { 0 };
-                let latch = Latch::new(ncallers as i64);
-                let sub_all = prng.chance(1, 2);
-                let ctx = mk_ctx(&bus, scl, format!("c{scl}.server{s}"), &mut prng);
-                bus.spawn_app(ctx.name.clone(), roles::server(ctx, s, s, slot.clone(), latch.clone(), sub_all));
-                roles_n += 1;
-                for c in 0..ncallers {
-                    let ccl = prng.below(n as u64) as usize;
-                    let ctx = mk_ctx(&bus, ccl, format!("c{ccl}.caller{s}_{c}"), &mut prng);
-                    let calls = 1 + prng.below(4);
-                    bus.spawn_app(ctx.name.clone(), roles::caller(ctx, slot.clone(), latch.clone(), calls));
-                    roles_n += 1;
-                }
-                if want("events") {
-                    for c in 0..prng.below(3) {
-                        let ccl = prng.below(n as u64) as usize;
-                        let ctx = mk_ctx(&bus, ccl, format!("c{ccl}.sub{s}_{c}"), &mut prng);
-                        let all = prng.chance(1, 3);
-                        let ev = prng.below(2) as u32;
-                        let k = 1 + prng.below(4);
-                        bus.spawn_app(ctx.name.clone(), roles::subscriber(ctx, s, slot.clone(), all, ev, k));
-                        roles_n += 1;
-                    }
-                    if ncallers == 0 {
-                        // the server still has to end: nobody holds the latch
-                    }
-                }
-            }
-        }
-        // channel pairs
-        if want("channels") {
-            for p in 0..prng.below(3) {
-                let a = prng.below(n as u64) as usize;
-                let b = prng.below(n as u64) as usize;
-                let mail = Mailbox::<Offer>::new();
-                let creator_sends = prng.chance(1, 2);
-                let cap = *prng.pick(&[1u32, 1, 2, 3, 4, 5, 6, 16, u32::MAX]);
-                let items = 1 + prng.below(20) as u32;
-                let ctx = mk_ctx(&bus, a, format!("c{a}.chanA{p}"), &mut prng);
-                bus.spawn_app(ctx.name.clone(), roles::chan_creator(ctx, mail.clone(), creator_sends, cap, items));
-                let ctx = mk_ctx(&bus, b, format!("c{b}.chanB{p}"), &mut prng);
-                bus.spawn_app(ctx.name.clone(), roles::chan_peer(ctx, mail.clone(), cap, items));
-                roles_n += 2;
-            }
-        }
-        if want("chaos") {
-            for k in 0..prng.below(3) {
-                let a = prng.below(n as u64) as usize;
-                let ctx = mk_ctx(&bus, a, format!("c{a}.chaos{k}"), &mut prng);
-                let steps = 3 + prng.below(12);
-                bus.spawn_app(ctx.name.clone(), roles::chaos(ctx, steps));
-                roles_n += 1;
-            }
-        }
-    }
+    let (roles_n, _slots) = bus_driver::program::spawn_program(&mut bus, &mut prng, mix, &tokens);
 
     let mut stuck = bus.run(&mut srng, STEP_BOUND) == RunOutcome::StepBound;
     let apps_unfinished = bus.apps_running();
